@@ -6,11 +6,11 @@ from harness import common, codecio
 from harness.common import Stream, hexb
 
 PID = "C08"
-LEAN_MODULES = ["Astm.Proofs.C08", "Astm.State.C08"]
+LEAN_MODULES = ["Astm.Proofs.C08", "Astm.State.C08", "Astm.Surface.C08"]
 THEOREMS = [
     "Astm.C08.decodeRecord_eq_reference", "Astm.C08.positions_preserved", "Astm.C08.encode_null_and_numbers",
     "Astm.C08.component_trailing_nulls_stripped", "Astm.C08.decode_encode_record", "Astm.C08.example_record",
-    "Astm.C08.anchored_code_keeps_no_other_state",
+    "Astm.C08.anchored_code_keeps_no_other_state", "Astm.C08.anchored_code_keeps_its_signatures",
 ]
 RULE = ("all byte strings over {a, |, \\, ^, &} up to length 7 (thorough: 8) as record text plus seeded strings over a "
         "larger alphabet in four encodings, compared with an independent positional reference parser and the Lean "
